@@ -190,6 +190,10 @@ def _opt_state(x, env):
     return None
 
 
+# discriminants of the std sum types the evaluator knows (Try::branch maps Ok->Continue(0), Err->Break(1); Some->Continue, None->Break)
+VARIANT_INDEX = {'Ok': 0, 'Err': 1, 'None': 0, 'Some': 1, 'Continue': 0, 'Break': 1}
+
+
 def subsumes(key, t):
     """t is key with some merge alternatives dropped (the value of the same expression on a restricted set of paths)."""
     if key == t:
@@ -285,6 +289,18 @@ def eval_bool(t, env):
                     return eval_bool(a[1], env)
                 cv = closure_value(inner[1], {('param', 2): ('vfield', inner[0], 'Some', '0')})
                 return eval_bool(cv, env) if cv is not None else None
+        return None
+    if k == 'discr':
+        x = t[1]
+        br = m_call(x, name='branch', trait='Try')
+        if br is not None:
+            x = br[0]
+        if isinstance(x, tuple) and x and x[0] == 'agg' and x[2] in VARIANT_INDEX:
+            return VARIANT_INDEX[x[2]]
+        if isinstance(x, tuple) and x and x[0] == 'phi':
+            vals = {eval_bool(('discr', a if br is None else ('call', t[1][1], (a,), None)), env) for a in x[1]}
+            if len(vals) == 1:
+                return vals.pop()
         return None
     if k == 'vfield' and t[2] == 'Continue':
         d = detry(t)
@@ -404,6 +420,21 @@ def unwrap_try(t):
     return t
 
 
+def executed_before(body, start):
+    """Blocks that can only have run before control reached `start`: its ancestors that are not reachable from it again."""
+    if start == 0:
+        return set()
+    anc = set()
+    work = [start]
+    while work:
+        x = work.pop()
+        for p in body.pred(x):
+            if p not in anc:
+                anc.add(p)
+                work.append(p)
+    return anc - body.reachable(start)
+
+
 def reach_under(body, tb, env, start=0, stop_blocks=()):
     """TABLE evaluator: blocks reachable from `start` when the atoms in env (stripped term -> value) have the given values.
     A switch whose discriminant evaluates to a definite value follows only that edge; otherwise every edge.
@@ -412,7 +443,7 @@ def reach_under(body, tb, env, start=0, stop_blocks=()):
     stop_blocks = set(stop_blocks)
     outside = None
     if start != 0:
-        outside = set(body.normal_blocks()) - body.reachable(start)
+        outside = executed_before(body, start)
     seen = {start}
     saved = tb.allowed
     try:
@@ -446,6 +477,23 @@ def reach_under(body, tb, env, start=0, stop_blocks=()):
     finally:
         tb.allowed = saved
     return seen
+
+
+def ret_values_under(body, tb, env, start=0, stop_blocks=()):
+    """(block, idx, term) of the return-place definitions reachable under env, each term built from the definitions that are
+    themselves reachable under env (so a value merged from several branches shows only the branch taken)."""
+    R = reach_under(body, tb, env, start=start, stop_blocks=stop_blocks)
+    outside = executed_before(body, start)
+    saved = tb.allowed
+    out = []
+    try:
+        tb.allowed = frozenset(R | outside)
+        for d in tb.defs(0):
+            if d[0] in R:
+                out.append((d[0], d[1], norm_returned(tb.def_term(0, d))))
+    finally:
+        tb.allowed = saved
+    return out
 
 
 def find_terms(body, tb, pred):
